@@ -601,6 +601,10 @@ func runC18(rc *RunCtx) {
 	if rc.Shard%3 == 2 || rc.NShards < 3 {
 		c18SlowNodeTwin(rc)
 	}
+	// (b01) live, cancelled and expired Go contexts on one state
+	if rc.Shard%3 == 1 || rc.NShards < 3 {
+		c18ContextTwin(rc)
+	}
 	// (b0) the fixed extremes history, in every process
 	{
 		d, v, inc := c18ExtremesTranscript(rc.Seed)
